@@ -301,6 +301,13 @@ func (c *Chunk) ReadFrom(r io.Reader) (int64, error) {
 	}
 
 	bitsForHeight := bits.Len( /* chunk height in blocks */ uint(len(c.Sections))*16 + 1)
+	// NewBitStorage panics if the array length doesn't fit; these arrays come from the peer.
+	want := calcBitStorageSize(bitsForHeight, 16*16)
+	for _, hm := range [][]uint64{heightmaps.MotionBlocking, heightmaps.WorldSurface} {
+		if hm != nil && len(hm) != want {
+			return n, newBitStorageErr{ArrlLen: len(hm), WantLen: want}
+		}
+	}
 	c.HeightMaps.MotionBlocking = NewBitStorage(bitsForHeight, 16*16, heightmaps.MotionBlocking)
 	c.HeightMaps.WorldSurface = NewBitStorage(bitsForHeight, 16*16, heightmaps.WorldSurface)
 
